@@ -12,6 +12,7 @@ RULE = ("problems with/without objective, constrained or not, with maxfev in "
         "stopping or the history is truncated; distinct = (binding, fun "
         "present, constraint kind, n, budget position relative to npt)")
 RULE += ("  Also: budgets placed by replay exactly on an iteration / evaluation that takes a second-order correction.")
+RULE += (" No constraint function is called more often than the problem is evaluated.")
 ASSUMPTIONS = [
     "an evaluation = one Problem.__call__ (tap) = one objective call (spy); "
     "both are counted and cross-checked",
